@@ -10,17 +10,24 @@ Branch-for-branch transcription of
   weasyprint/layout/block.py   block_box_layout (the columns call site and its second layout with a larger
                                bottom_space), block_level_layout, block_container_layout (is_column:
                                establishes a formatting context, is not stretched to the page bottom),
-                               find_earlier_page_break (`is_column: continue`, the missing `.index` of the
-                               children of a container), avoid_page_break / force_page_break (context.in_column)
+                               find_earlier_page_break (`is_column: continue`, `is_multicol`: a container is
+                               never looked into), avoid_page_break / force_page_break (context.in_column)
 plus own copies of the stage-1 functions over the extended box type (`ColBox`, `CFrag`).  The helpers of
 stage 1 that do not mention boxes or fragments are reused as they are (`PStyle`, `Resume`, `Geo`, `breakLine`,
 `collapseMargin`, `prepare` …).  `Props/C01Col.lean` proves that on documents without `columns` this model
 *is* stage 1 (`embed_agrees`).
 
+Follows /repo after the repairs 9436248 (the container's own top margin collapses with the margins before it),
+b24b457 (the loop over `columns_and_blocks` stops only when a group continues on the next page), 94e08d4 (second
+layout of a finished container only with a larger bottom space), 3162604 (`find_earlier_page_break` never goes into
+a container) and 0e65726 (column-width clamp: outside the grammar, `column-width` is `auto` here).
+
 Not modelled (outside the grammar): column-width / column-gap ≠ 0, nested containers (the model treats an
 inner container with `in_column` still set when it returns; the Python code resets the flag), spans that are
-blocks with children (their resume positions are mis-levelled by `columns_layout` and end in the inline
-layout), footnotes, floats, absolutely positioned boxes.
+blocks with children (their resume positions are mis-levelled by `columns_layout`: content lost or an IndexError
+in the inline layout — open findings `column-span-block-resume-mislevelled` / `-crash`, corpus/C01/
+colspan_block_resume_*.json, proposed repair /tmp/w/S2C/proposed/column-span-block-resume.diff), footnotes, floats,
+absolutely positioned boxes.
 -/
 import WpModel.Model.Paginate
 
@@ -227,8 +234,6 @@ def lineboxLayout (c : CCtx) (st : PStyle) (b : BoxSt) (n : Nat) (lineH : Rat) (
 structure EarlierState where
   found : Option (List CFrag × Resume)
   prev : Option CFrag
-  /-- `AttributeError: 'BlockBox' object has no attribute 'index'` -/
-  err : Bool
   deriving Inhabited
 
 def findEarlierPara (id idx : Nat) (st : PStyle) (n : Nat) (g : Geo) (lines : List (Nat × Rat))
@@ -243,23 +248,16 @@ def findEarlierPara (id idx : Nat) (st : PStyle) (n : Nat) (g : Geo) (lines : Li
       | some (i, _) => some (.para id idx st n g kept, .node 0 (lineResume n i))
       | none => none
 
-/-- Result of looking inside a child. -/
-inductive EarlierIn where
-  | nothing
-  | found (f : CFrag) (r : Resume)
-  | raised
-  deriving Inhabited
-
 mutual
-/-- The reversed loop of `find_earlier_page_break(children)`, as a right fold. `noIdx`: the children are
-those of a multi-column container (they have no `.index`: reading it raises). -/
-def findEarlierGo (inCol : Bool) (noIdx : Bool) : List CFrag → EarlierState
-  | [] => { found := none, prev := none, err := false }
+/-- The reversed loop of `find_earlier_page_break(children)`, as a right fold.  The children are never those of
+a multi-column container (column boxes and spanning blocks have no `.index`): the function does not go into a
+container (`is_multicol`), and `_in_flow_layout` only calls it on the children of a block container. -/
+def findEarlierGo (inCol : Bool) : List CFrag → EarlierState
+  | [] => { found := none, prev := none }
   | x :: xs =>
-    let s := findEarlierGo inCol noIdx xs
-    if s.err then s
-    else match s.found with
-    | some (kept, r) => { found := some (x :: kept, r), prev := s.prev, err := false }
+    let s := findEarlierGo inCol xs
+    match s.found with
+    | some (kept, r) => { found := some (x :: kept, r), prev := s.prev }
     | none =>
       if x.isColumn then s      -- `elif child.is_column: continue`
       else
@@ -270,36 +268,24 @@ def findEarlierGo (inCol : Bool) (noIdx : Bool) : List CFrag → EarlierState
         match breakAfter with
         | some p =>
           -- `resume_at = {children[index + 1].index: None}`
-          if noIdx then { found := none, prev := s.prev, err := true }
-          else { found := some ([x], .node p.idx none), prev := s.prev, err := false }
+          { found := some ([x], .node p.idx none), prev := s.prev }
         | none =>
           if !avoids inCol x.st.brkInside then
             match findEarlierFrag inCol x with
-            | .found x' r =>
+            | some (x', r) =>
               -- `resume_at = {new_child.index: resume_at}`
-              if noIdx then { found := none, prev := some x, err := true }
-              else { found := some ([x'], .node x.idx (some r)), prev := some x, err := false }
-            | .raised => { found := none, prev := some x, err := true }
-            | .nothing => { found := none, prev := some x, err := false }
-          else { found := none, prev := some x, err := false }
-def findEarlierFrag (inCol : Bool) : CFrag → EarlierIn
-  | .para id idx st n g lines =>
-    match findEarlierPara id idx st n g lines with
-    | some (f, r) => .found f r
-    | none => .nothing
+              { found := some ([x'], .node x.idx (some r)), prev := some x }
+            | none => { found := none, prev := some x }
+          else { found := none, prev := some x }
+/-- `find_earlier_page_break(child.children)` for a breakable child that is not a multi-column container. -/
+def findEarlierFrag (inCol : Bool) : CFrag → Option (CFrag × Resume)
+  | .para id idx st n g lines => findEarlierPara id idx st n g lines
   | .block id idx st g kids =>
-    let s := findEarlierGo inCol false kids
-    if s.err then .raised
-    else match s.found with
-    | some (kids', r) => .found (.block id idx st g kids') r
-    | none => .nothing
-  | .cols id idx st g kids =>
-    let s := findEarlierGo inCol true kids
-    if s.err then .raised
-    else match s.found with
-    | some (kids', r) => .found (.cols id idx st g kids') r
-    | none => .nothing
-  | .column _ _ _ _ _ => .nothing      -- never looked into (skipped by the caller)
+    match (findEarlierGo inCol kids).found with
+    | some (kids', r) => some (.block id idx st g kids', r)
+    | none => none
+  | .cols _ _ _ _ _ => none        -- `is_multicol`: no page break is looked for inside a container
+  | .column _ _ _ _ _ => none      -- never looked into (skipped by the caller)
 end
 
 /-! ### block containers -/
@@ -476,28 +462,17 @@ def KidsLoop.adoptAdj (s : KidsLoop) (hadFrag : Bool) (adj : AdjOut) (frag : Opt
     | none => s
 
 /-- `find_earlier_page_break(context, new_children, …)` as called by `_in_flow_layout`. -/
-inductive EarlierList where
-  | nothing
-  | found (kept : List CFrag) (r : Resume)
-  | raised
-  deriving Inhabited
-
-def findEarlierList (inCol : Bool) (kids : List CFrag) : EarlierList :=
-  let s := findEarlierGo inCol false kids
-  if s.err then .raised
-  else match s.found with
-  | some (kept, r) => .found kept r
-  | none => .nothing
+def findEarlierList (inCol : Bool) (kids : List CFrag) : Option (List CFrag × Resume) :=
+  (findEarlierGo inCol kids).found
 
 def concludeKid (c : CCtx) (index : Nat) (pageIsEmpty : Bool) (pb : Brk) (child : ColBox) (s : KidsLoop)
     (frag : Option CFrag) (resume : Option Resume) : Option KidsOutcome × KidsLoop :=
   match frag with
   | none =>
-    let earlier := if c.avoidsB pb then findEarlierList c.inColumn s.newChildren else .nothing
+    let earlier := if c.avoidsB pb then findEarlierList c.inColumn s.newChildren else none
     match earlier with
-    | .raised => (some (.raised "AttributeError"), s)
-    | .found kept r' => (some (.stopped (some r') { s with newChildren := kept }), s)
-    | .nothing =>
+    | some (kept, r') => (some (.stopped (some r') { s with newChildren := kept }), s)
+    | none =>
       if c.avoidsB pb && !pageIsEmpty then (some (.aborted (boxPageStart child) s), s)
       else if !s.newChildren.isEmpty then (some (.stopped (some (.node index none)) s), s)
       else (some (.aborted (boxPageStart child) s), s)
@@ -603,7 +578,7 @@ def trialPass (env : ColEnv) (c : CCtx) (a : Nat) (x y height : Rat) (balancing 
 
 structure TrialOut where
   height : Rat
-  stop : Bool                    -- stop_rendering
+  stop : Bool                    -- stop_rendering (still assigned by the code, no longer read since b24b457)
   nextPage : Option NextPage
   err : Option String
   deriving Inhabited
@@ -745,7 +720,8 @@ def colsLoop (env : ColEnv) (c : CCtx) (cs : ColSpec) (heightDefined : Bool) (or
         newChildren := s.newChildren ++ r.columns.map (setColHeight r.maxColH),
         colSkip := r.colSkip, skip := none, breakPage := r.breakPage, nextPage := r.nextPage, pie := false,
         bs := r.bs, index := a, err := none }
-    if t.stop then s' else colsLoop env c cs heightDefined originalBs lastIndex unitsFuel rest s'
+    -- `if break_page or column_skip_stack is not None: break` (the group continues on the next page)
+    if r.breakPage || r.colSkip.isSome then s' else colsLoop env c cs heightDefined originalBs lastIndex unitsFuel rest s'
 
 /-- `child.height += height_difference` for the trailing columns of `new_children`. -/
 def addTrailing (diff : Rat) : List CFrag → List CFrag × Bool
@@ -813,7 +789,7 @@ def columnsLayout (env : ColEnv) (c : CCtx) (id idx : Nat) (st : PStyle) (cs : C
   if cs.count = 0 then raisedResult "ZeroDivisionError" adjL
   else
   let c := { c with inColumn := true }
-  let y := y0 + collapseMargin adjL - mt
+  let y := y0 + collapseMargin (adjL ++ [mt]) - mt
   let contentY := y + mt + st.bt + st.pt
   let bs := match st.height with
     | some h => let e := c.pageBottom - contentY - h; if e > bs0 then e else bs0
@@ -838,7 +814,7 @@ def columnsBoxLayout (env : ColEnv) (c : CCtx) (id idx : Nat) (st : PStyle) (cs 
     | none => raisedResult "AttributeError" adjL
     | some f =>
       let cbs := f.geo.mb + f.geo.pb + f.geo.bb
-      if cbs ≠ 0 then columnsLayout env c id idx st cs flags nkids unitsFuel mt y (bs + cbs) skip pie adjL
+      if cbs > 0 then columnsLayout env c id idx st cs flags nkids unitsFuel mt y (bs + cbs) skip pie adjL
       else r
   else r
 
